@@ -143,6 +143,15 @@ theorem duration_drifts_float :
       (Scalar.max driftStart driftEnd - driftStart) = false := by
   unfold InLimit; decide +kernel
 
+/-- … and on this pair the drift stops after one round: from the re-derived duration `0.24999999999999997` the encoder writes
+the same end time `0.33999999999999997` again and the decoder re-derives the same duration. (Empirically — an exhaustive run
+over 1.8·10⁸ pairs of short decimals, 526 of which drift — the second round is always stable; not proved.) -/
+theorem duration_drift_stabilises_witness :
+    (driftStart + Float.ofBits 0x3FCFFFFFFFFFFFFF).toBits = 0x3FD5C28F5C28F5C2 ∧
+    (Scalar.max ((driftStart + Float.ofBits 0x3FCFFFFFFFFFFFFF) - driftStart) 0).toBits = 0x3FCFFFFFFFFFFFFF ∧
+    (Scalar.max driftStart (driftStart + Float.ofBits 0x3FCFFFFFFFFFFFFF) - driftStart).toBits = 0x3FCFFFFFFFFFFFFF := by
+  decide +kernel
+
 /-- start time `−(1 + 3·2⁻²²) = −1.0000007152557373`, end time `2147483647` (the parse limit itself). -/
 def overStart : Float := Float.ofBits 0xBFF00000C0000000
 def overEnd : Float := Float.ofInt 2147483647
